@@ -104,13 +104,11 @@ func H18_val() {
 		// full string pool; container sizes as in the quick tier - the number of
 		// pairs grows with the square of the number of values
 		NumPool = []float64{1, 2.5, 9007199254740993, 1e19}
-		ThoroughLenCap = 2
 	}
 	MaxLenQuick = 2
 	x := AnyVal(t, "x")
 	y := AnyVal(Permuted(t, "perm"), "y")
 	NumPool = nil
-	ThoroughLenCap = 0
 	sv.Assert("reflexive", val.Equals(x, x))
 	sameness(x, y, t.Kind.IsPrimitive())
 	sv.Reach("compared")
